@@ -106,18 +106,35 @@ Record cblock := mkCB { c_map : list Z; c_items : list obj }.
 
 Inductive ckind := KEmg | KCal | KDat.
 
-Fixpoint zmax (l : list Z) : Z := match l with [] => 0 | x :: r => Z.max x (zmax r) end.
+(* Python's max(): the largest element (0 only stands in for the empty list, which next_channel never asks about) *)
+Fixpoint zmax (l : list Z) : Z :=
+  match l with [] => 0 | x :: r => match r with [] => x | _ => Z.max x (zmax r) end end.
 Definition next_channel (m : list Z) : Z := match m with [] => 0 | _ => zmax m + 1 end.
 Definition zmem (z : Z) (l : list Z) : bool := existsb (Z.eqb z) l.
 
 Definition wrong_kind_err (k : ckind) : err := match k with KDat => EValue | _ => EType end.
 
+(* the channel map is stored as 16-bit integers: signed for EMG and platform calibration, unsigned for platform data *)
+Definition ch_lo (k : ckind) : Z := match k with KDat => 0 | _ => -32768 end.
+Definition ch_hi (k : ckind) : Z := match k with KDat => 65535 | _ => 32767 end.
+Definition ch_ok (k : ckind) (c : Z) : bool := (ch_lo k <=? c) && (c <=? ch_hi k).
+
+(* automatic channel: one above the highest in use; when that no longer fits the 16-bit map, the lowest free one *)
+Definition first_free (k : ckind) (m : list Z) : option Z :=
+  find (fun c => negb (zmem c m) && ch_ok k c) (map Z.of_nat (seq 0 (S (length m)))).
+Definition auto_channel (k : ckind) (m : list Z) : option Z :=
+  let c := next_channel m in if c <=? ch_hi k then Some c else first_free k m.
+
 (* add one item, with an explicit channel or an automatic one *)
 Definition c_add1 (k : ckind) (b : cblock) (x : obj) (ch : option Z) : option err * cblock :=
   if negb (is_item x) then (Some (wrong_kind_err k), b) else
   match ch with
-  | None => (None, mkCB (c_map b ++ [next_channel (c_map b)]) (c_items b ++ [x]))
-  | Some c => if zmem c (c_map b) then (Some EValue, b)
+  | None => match auto_channel k (c_map b) with
+            | Some c => (None, mkCB (c_map b ++ [c]) (c_items b ++ [x]))
+            | None => (Some EValue, b)
+            end
+  | Some c => if negb (ch_ok k c) then (Some EValue, b)
+              else if zmem c (c_map b) then (Some EValue, b)
               else (None, mkCB (c_map b ++ [c]) (c_items b ++ [x]))
   end.
 
